@@ -119,7 +119,17 @@ impl RuleSpec
             }
         }
         s.push_str(":\n");
-        for t in &self.sources { s.push_str(t); s.push('\n'); }
+        // a source listed twice is spelled once flat and once as a bundle: the parser merges plain
+        // repeats, but keeps a path that is written both ways — the rule then really has it twice
+        let mut seen: BTreeSet<&String> = BTreeSet::new();
+        for t in &self.sources
+        {
+            match t.find('/')
+            {
+                Some(i) if !seen.insert(t) => { s.push_str(&t[..i]); s.push_str("\n\t"); s.push_str(&t[i + 1..]); s.push('\n'); },
+                _ => { seen.insert(t); s.push_str(t); s.push('\n'); },
+            }
+        }
         s.push_str(":\n");
         for t in self.command_lines() { s.push_str(&t); s.push('\n'); }
         s.push_str(":\n");
